@@ -77,7 +77,7 @@ def run(ctx):
     ctx.rule = ("generated CIDs (all 8 field types incl. Decimal and DateTime, checks, property rows) stored as CSV, ODS and XLSX and loaded through Cid(path); "
                 "generated tables of text cells (accepted and rejected values per field, rows of empty cells only) stored as delimited text, ODS and XLSX and read under CIDs that differ only "
                 "in their Format property; distinct = distinct (CID, table); non-trivial = every case")
-    n = 40 if ctx.tier == "quick" else 400
+    n = 120 if ctx.tier == "quick" else 600
     tmp = tempfile.mkdtemp(prefix="c17-")
     try:
         from cutplace import interface
@@ -85,6 +85,13 @@ def run(ctx):
             # ---- (a) CID storage ------------------------------------------------------------------------------------------
             rows, info = cidlib.gen_valid_cid(rnd, fmt=rnd.choice(["delimited", "fixed", "excel", "ods"]))
             rows = [list(r) for r in rows]
+            if it < 6:
+                # short CIDs whose cells hold more bars, semicolons or tabs than the text form has commas
+                filler = [("RegEx", "^(AT|BE|CH|DE|DK|ES|FI|FR|GB|IT|NL|NO|PL|PT|SE|SK|A|B|C|D|E|F|G|H|I|J|K|L|M|N|O|P|Q|R|S|T|U)$"),
+                          ("Choice", "'a;b', 'c;d', 'e;f;g;h;i;j;k;l;m;n;o;p;q;r;s;t;u;v;w;x;y;z;1;2;3;4;5;6;7;8;9'"),
+                          ("Pattern", "a\tb\tc\td\te\tf\tg\th\ti\tj\tk\tl\tm\tn\to\tp\tq\tr\ts\tt\tu\tv*")][it % 3]
+                rows = [["D", "Format", "Delimited"], ["F", "code", "", "X", "", filler[0], filler[1]]]
+                info = {"format": "delimited"}
             # xlsx / ods cannot keep trailing empty cells apart from missing ones: neither can a CID reader care (cells are padded)
             canon = {}
             for kind in ("csv", "ods", "xlsx"):
